@@ -330,6 +330,18 @@ class WT:
             def fref(t_):
                 return isinstance(t_, tuple) and len(t_) == 2 and t_[0] == 'global' and isinstance(f.module.funcs.get(t_[1]), Func)
             ph = env[fn.id]
+            if (fref(ph[2]) and ph[3] is None) or (fref(ph[3]) and ph[2] is None):
+                # the other branch of the selector raises: one candidate, under the selector's condition
+                br, g_ = (ph[2], ph[1]) if ph[3] is None else (ph[3], neg(ph[1]))
+                e2 = copy.copy(e)
+                e2.func = ast.copy_location(ast.Name(id=br[1], ctx=ast.Load()), fn)
+                env2 = dict(env)
+                env2.pop(br[1], None)
+                saved_ = self.guards
+                self.guards = saved_ + [g_]
+                out_ = self.e_Call(f, e2, env2, depth)
+                self.guards = saved_
+                return out_
             if fref(ph[2]) and fref(ph[3]):
                 outs = []
                 saved_ = self.guards
@@ -366,9 +378,15 @@ class WT:
                 target = self.prog.resolve_callable(f, f.module, fn)
             except Exception:      # noqa - resolution is best effort here
                 target = None
-        if self.backend and f is not None and isinstance(fn, ast.Call):
+        if self.backend and f is not None and (isinstance(fn, ast.Call) or (
+                isinstance(fn, ast.Name) and isinstance(env.get(fn.id), tuple) and env[fn.id] and env[fn.id][0] == 'call' and
+                isinstance(env[fn.id][1], tuple) and env[fn.id][1][:2] == ('call', ('global', 'ArrayTypeFunctionMapping')))):
             # the dispatch idiom: ArrayTypeFunctionMapping(numpy_func=.., dask_func=..)(agg)(args): the chosen backend's function
-            mv = self.ev(f, fn.func, env, depth) if not isinstance(fn.func, ast.Name) else env.get(fn.func.id)
+            # (also through a local: `backend_func = mapper(agg); backend_func(args)`)
+            if isinstance(fn, ast.Name):
+                mv = env[fn.id][1]
+            else:
+                mv = self.ev(f, fn.func, env, depth) if not isinstance(fn.func, ast.Name) else env.get(fn.func.id)
             if isinstance(mv, tuple) and mv[0] == 'call' and mv[1] == ('global', 'ArrayTypeFunctionMapping'):
                 bt = dict(mv[3]).get(self.backend + '_func')
                 if isinstance(bt, tuple) and bt[0] == 'global' and isinstance(f.module.funcs.get(bt[1]), Func):
